@@ -82,8 +82,28 @@ func (fg *FnGen) monitorBefore(fr *Frame, d callDesc, args []*Term, argTypes []t
 			if o != nil && via != "" {
 				o.Note = "callee may reach " + via
 			}
-			// an assertion that is proved is a fact for what follows (assert-then-assume)
-			fg.assumeIf(reach, v)
+			if o != nil && fg.ct != nil {
+				// `option monitor_props name=Cxx[,Cyy]`: the obligations of this monitor belong to these properties only
+				for _, kv := range strings.Fields(fg.ct.Options["monitor_props"]) {
+					if k, v, ok := strings.Cut(kv, "="); ok && k == m.Name {
+						o.Props = strings.Split(v, ",")
+					}
+				}
+			}
+			// an assertion that is proved is a fact for what follows (assert-then-assume) — except an assertion that is
+			// syntactically false or belongs to a re-tagged monitor (known findings live there): assuming a failed
+			// assertion would make every later obligation of the function vacuous and hide other violations
+			retagged := false
+			if fg.ct != nil {
+				for _, kv := range strings.Fields(fg.ct.Options["monitor_props"]) {
+					if k, _, ok := strings.Cut(kv, "="); ok && k == m.Name {
+						retagged = true
+					}
+				}
+			}
+			if v != False && !retagged {
+				fg.assumeIf(reach, v)
+			}
 		}
 	}
 }
